@@ -60,7 +60,12 @@ def jsonable(x, depth=0):
                 return "<str %s>" % ascii(x)[:300]
         return x
     if isinstance(x, int):
-        return x if abs(x) < 2 ** 63 else "<int %s>" % (str(x)[:20] + "..." if len(str(x)) > 40 else str(x))
+        if abs(x) < 2 ** 63:
+            return x
+        if x.bit_length() > 4000:
+            # beyond the interpreter's int -> str conversion limit for long decimal strings
+            return "<int %d bits %s...>" % (x.bit_length(), hex(x)[:18])
+        return "<int %s>" % (str(x)[:20] + "..." if len(str(x)) > 40 else str(x))
     if isinstance(x, float):
         return x if math.isfinite(x) else "<float %r>" % x
     if isinstance(x, (list, tuple)):
@@ -70,6 +75,13 @@ def jsonable(x, depth=0):
     if isinstance(x, (set, frozenset)):
         return sorted((jsonable(i, depth + 1) for i in x), key=repr)
     return "<%s %s>" % (type(x).__name__, repr(x)[:200])
+
+
+def safe_repr(x, limit=200):
+    try:
+        return repr(x)[:limit]
+    except Exception:
+        return json.dumps(jsonable(x), default=str)[:limit]
 
 
 def short_hash(obj):
